@@ -22,7 +22,7 @@
 //         word accepted <=> w < T inside every window, output == w mod m for every accepted word, output < m always.
 //         Catalogue: quick m = 2..128, thorough m = 2..4096; both: 2^k-1, 2^k, 2^k+1 (k = 2..63), 2^16..2^16+64,
 //         values around ULONG_MAX/2, ULONG_MAX/3, ULONG_MAX.
-//   resm  tmcg_mpz_{ss,s,w}randomm(r, m): for every m of a catalogue of 1..4096-bit moduli and every level: exactly one
+//   resm  tmcg_mpz_{ss,s,w}randomm(r, m): for every m of a catalogue of 1..32768-bit moduli and every level: exactly one
 //         coin request, of >= ceil((|m|+64)/8) bytes; for a set of steered buffers (all zero, all 0xFF, a single 0x01 /
 //         0x80 at EVERY byte position, 8 pseudo-random fills, and for m <= 300 the values 0..4m+3) the result equals
 //         (big-endian integer of ALL requested bytes) mod m, and is < m.  A sample is re-computed by Python.
@@ -595,7 +595,9 @@ static void fam_resm()
 	for (unsigned long v = 1; v <= small_top; v++) ms.push_back(std::make_pair("m=" + str(v), str(v)));
 	std::vector<unsigned> ks;
 	for (unsigned k = 9; k <= 72; k++) if (thorough || k % 8 <= 1 || k % 8 == 7) ks.push_back(k);
-	unsigned big[] = { 127, 128, 129, 160, 255, 256, 257, 511, 512, 513, 1023, 1024, 1025, 2047, 2048, 2049, 3072, 4095, 4096 };
+	// the property asks for big moduli: up to and beyond TMCG_MAX_KEYBITS (16384), where a fixed-size buffer would clamp the extra 64 bits
+	unsigned big[] = { 127, 128, 129, 160, 255, 256, 257, 511, 512, 513, 1023, 1024, 1025, 2047, 2048, 2049, 3072, 4095, 4096,
+		8191, 8192, 8193, 16319, 16320, 16321, 16383, 16384, 16385, 16447, 16448, 20000, 32768 };
 	for (size_t i = 0; i < sizeof(big) / sizeof(big[0]); i++) ks.push_back(big[i]);
 	for (size_t i = 0; i < ks.size(); i++)
 	{
